@@ -16,16 +16,32 @@ where
     let l_indiv = read_samples_length(reader).await?;
 
     let site_buf = record.fields_mut().site_buf_mut();
-    site_buf.resize(l_shared, 0);
-    reader.read_exact(site_buf).await?;
+    read_buf_exact(reader, site_buf, l_shared).await?;
 
     record.fields_mut().index()?;
 
     let samples_buf = record.fields_mut().samples_buf_mut();
-    samples_buf.resize(l_indiv, 0);
-    reader.read_exact(samples_buf).await?;
+    read_buf_exact(reader, samples_buf, l_indiv).await?;
 
     Ok(l_shared + l_indiv)
+}
+
+// Reads exactly `len` bytes into `buf`.
+//
+// `len` is read from the input, so `buf` grows as data arrives instead of being allocated upfront.
+async fn read_buf_exact<R>(reader: &mut R, buf: &mut Vec<u8>, len: usize) -> io::Result<()>
+where
+    R: AsyncRead + Unpin,
+{
+    let limit = u64::try_from(len).map_err(|e| io::Error::new(io::ErrorKind::InvalidData, e))?;
+
+    buf.clear();
+
+    if reader.take(limit).read_to_end(buf).await? < len {
+        Err(io::Error::new(io::ErrorKind::UnexpectedEof, "early eof"))
+    } else {
+        Ok(())
+    }
 }
 
 async fn read_site_length<R>(reader: &mut R) -> io::Result<usize>
@@ -92,6 +108,19 @@ mod tests {
     };
 
     use super::*;
+
+    #[tokio::test]
+    async fn test_read_record_with_truncated_data() {
+        // l_shared = l_indiv = 2^32 - 1
+        let src = [0xff, 0xff, 0xff, 0xff, 0xff, 0xff, 0xff, 0xff, 0x00];
+        let mut reader = &src[..];
+        let mut record = Record::default();
+
+        assert!(matches!(
+            read_record(&mut reader, &mut record).await,
+            Err(e) if e.kind() == io::ErrorKind::UnexpectedEof
+        ));
+    }
 
     #[tokio::test]
     async fn test_read_record() -> Result<(), Box<dyn std::error::Error>> {
